@@ -123,8 +123,24 @@ pub fn draw_capacities(r: &mut Rng, medium: &[u8], storage: bool, default_pct: u
         return (0, 0);
     }
     let need = max_declared(medium, storage);
-    let msg_max = need + *r.pick(&[0usize, 0, 0, 1, 7, 100, 5000]);
-    let buf_cap = msg_max + *r.pick(&[0usize, 0, 0, 1, 16, 4096]);
+    let mut msg_max = need + *r.pick(&[0usize, 0, 0, 1, 7, 100, 5000]);
+    let mut buf_cap = msg_max + *r.pick(&[0usize, 0, 0, 1, 16, 4096]);
+    // capacities that are literals of the crate's source (or next to one), when they are legal
+    if r.chance(1, 10) {
+        if let Some(n) = crate::dict::num_below(r, 200_000) {
+            if n as usize >= need {
+                msg_max = n as usize;
+                buf_cap = buf_cap.max(msg_max);
+            }
+        }
+    }
+    if r.chance(1, 10) {
+        if let Some(n) = crate::dict::num_below(r, 400_000) {
+            if n as usize >= msg_max {
+                buf_cap = n as usize;
+            }
+        }
+    }
     (buf_cap, msg_max)
 }
 
